@@ -24,6 +24,7 @@ encoding is *not* injective on whole records (bytes can be moved between adjacen
 -/
 import Aergo.Lemmas.Enc
 import Aergo.Lemmas.Merkle
+import Aergo.Lemmas.Receipt
 
 namespace Aergo.Props.C19
 open Aergo.Enc Aergo.Gen.Enc
@@ -332,5 +333,152 @@ example : root node (leaf 0) [none, some (leaf 2)] = none ∧ root node (leaf 0)
 -- hypotheses of merkle_exact_list_partial are satisfiable (H = a 32-byte-output function)
 example : ∀ x : Bytes, ((x ++ List.replicate 32 0).take 32).length = 32 := by intro x; simp
 end merkle
+
+/-! ## Part 3 — receipts (types/receipt.go)
+
+`Receipt.marshalStore / unmarshalStore`, `marshalMerkle`, `marshalAll / unmarshalAll` are byte-level
+transcriptions of the Go codecs for both formats (`v2 = false`: before the V2 fork height; `v2 = true`:
+from it on), tied byte for byte to the real functions by the harness (`rst`, `rus`, `rmk`, `rsm`, `rsu`
+operations, incl. truncated and misaligned inputs on which the Go decoders panic). -/
+section receipts
+open Aergo.Receipt Aergo.Merkle
+set_option maxRecDepth 20000   -- the `decide` tests below evaluate the codecs on ~100-byte strings
+
+/-- **Storage round trip of one receipt**, both formats, with and without events / bloom: decoding what
+was encoded (followed by any further bytes) yields the receipt (`Receipt.stored`: gas and the
+fee-delegation flag only in the V2 format; an event's TxHash copy is not stored) and exactly the further
+bytes. `Receipt.wf` is decidable and explicit: 33-byte addresses, 32-byte tx hash, supported status,
+bloom absent or 256 bytes, lengths and integers in range, an event address that differs from the
+receipt's does not start with byte 0, and **CumulativeFeeUsed empty**. -/
+theorem receipt_store_roundtrip (v2 : Bool) (r : Receipt) (b rest : Bytes) (hw : r.wf = true)
+    (hm : marshalStore v2 r = some b) : unmarshalStore v2 (b ++ rest) = some (r.stored v2, rest) :=
+  unmarshalStore_marshalStore v2 r b rest hw hm
+
+/-- Encoding succeeds on every well-formed receipt (so the round trip is not vacuous). -/
+theorem receipt_store_total (v2 : Bool) (r : Receipt) (hw : r.wf = true) : (marshalStore v2 r).isSome = true := by
+  simp only [Receipt.wf, Bool.and_eq_true] at hw
+  have hs := hw.1.1.1.1.1.1.1.1.2
+  unfold marshalStore marshalBody
+  match h : statusCode r.status, hs with
+  | some c, _ => simp
+
+/-- **receipts_roundtrip**: `Receipts.UnmarshalBinary (Receipts.MarshalBinary rs) = rs` for every list of
+well-formed receipts, with or without the block bloom filter, in both formats. -/
+theorem receipts_roundtrip (v2 : Bool) (bloom : Option Bytes) (rs : List Receipt) (b : Bytes)
+    (hb : ∀ x, bloom = some x → x.length = 256) (hn : rs.length < 2 ^ 32)
+    (hw : ∀ r ∈ rs, r.wf = true) (hm : marshalAll v2 bloom rs = some b) :
+    unmarshalAll v2 b = some (bloom, rs.map (Receipt.stored v2)) :=
+  unmarshalAll_marshalAll v2 bloom rs b hb hn hw hm
+
+private def rOk : Receipt :=
+  { addr := List.replicate 33 2, status := "SUCCESS", ret := [123, 125], txHash := List.replicate 32 7,
+    fee := [1, 0], cum := [], gas := 5000, feeDeleg := true, bloom := [],
+    events := [{ addr := List.replicate 33 2, name := [97], args := [91, 93], idx := 0, txHash := List.replicate 32 7 },
+               { addr := List.replicate 33 12, name := [98], args := [], idx := 1, txHash := List.replicate 32 7 }] }
+
+-- tests on a sample value: the hypotheses are satisfiable, and the round trip computes
+example : rOk.wf = true := by decide
+example : (marshalStore true rOk).bind (unmarshalStore true) = some (rOk.stored true, []) := by decide
+example : (marshalStore false rOk).bind (unmarshalStore false) = some (rOk.stored false, []) := by decide
+example : (marshalAll true none [rOk, rOk]).bind (unmarshalAll true) = some (none, [rOk.stored true, rOk.stored true]) := by decide
+
+/-- Why `wf` demands an empty CumulativeFeeUsed (DESIGN §5 lead 6): `unmarshalBody{,V2}` advances by its
+length a second time (`pos += l` after the bloom flag), so a receipt with a non-empty value is not read
+back (the event count is read one byte too far). Nothing in the
+pinned tree assigns the field, so every receipt the node builds is well-formed. Test on a sample value. -/
+example : (marshalStore true { rOk with cum := [9] }).bind (unmarshalStore true) ≠ some ({ rOk with cum := [9] }.stored true, []) := by decide
+
+/-- Likewise an event of *another* contract whose address starts with byte 0 is stored in 33 bytes but
+decoded as "same address as the receipt" (marker byte 0). Real addresses start with 0x02/0x03/0x0C/0x80. -/
+example : (marshalStore true { rOk with events := [{ addr := 0 :: List.replicate 32 5, name := [], args := [], idx := 0, txHash := [] }] }).bind
+    (unmarshalStore true) ≠ some ({ rOk with events := [{ addr := 0 :: List.replicate 32 5, name := [], args := [], idx := 0, txHash := [] }] }.stored true, []) := by decide
+
+/-- **receipt_digest_inj.** The bytes hashed into the receipts-root leaf (`MarshalMerkleBinary` before
+the V2 fork, `MarshalMerkleBinaryV2` after) determine every consensus-relevant field of that format:
+contract address, status, tx hash, fee, cumulative fee, bloom, every event (address, name, arguments,
+index, tx hash) in order, the return value unless the status is ERROR, and in the V2 format gas and the
+fee-delegation flag (`Receipt.view`). Equal bytes ⇒ equal views. (`wfM`: fixed-length fields have their
+fixed length, lengths < 2³²; no condition on CumulativeFeeUsed.) -/
+theorem receipt_digest_inj (v2 : Bool) (r r' : Receipt) (b : Bytes) (hw : r.wfM = true) (hw' : r'.wfM = true)
+    (hm : marshalMerkle v2 r = some b) (hm' : marshalMerkle v2 r' = some b) : r.view v2 = r'.view v2 := by
+  have h1 := parseMerkle_marshalMerkle v2 r b [] hw hm
+  have h2 := parseMerkle_marshalMerkle v2 r' b [] hw' hm'
+  rw [h1] at h2
+  simpa using h2
+
+example : rOk.wfM = true := by decide
+-- what the leaf does NOT commit to, by format (tests on sample values): the return value of a failed
+-- execution, and gas / fee delegation before the V2 fork
+example : marshalMerkle true { rOk with status := "ERROR", ret := [1] } = marshalMerkle true { rOk with status := "ERROR", ret := [2] } := by decide
+example : marshalMerkle false { rOk with gas := 1, feeDeleg := false } = marshalMerkle false rOk := by decide
+example : marshalMerkle true { rOk with gas := 1 } ≠ marshalMerkle true rOk := by decide
+
+/-- **The receipts root commits to the ordered list of receipts** (for lists of equal length — see
+`merkle_odd_duplication` for why the guard is needed): if two receipt lists of the same length, each
+followed by the same number of further 32-byte leaves (the block bloom filter's hash, when present),
+have equal `Receipts.MerkleRoot`, then the receipts are pairwise equal on every consensus-relevant
+field of the format, or an explicit SHA-256 collision is exhibited. `mb r` are the Merkle bytes of `r`. -/
+theorem receipts_root_binds (H : Bytes → Bytes) (hH : ∀ x, (H x).length = 32) (zero : Bytes) (v2 : Bool)
+    (mb : Receipt → Bytes) (rs rs' : List Receipt) (tl tl' : List Bytes)
+    (hmb : ∀ r ∈ rs ++ rs', marshalMerkle v2 r = some (mb r)) (hwf : ∀ r ∈ rs ++ rs', r.wfM = true)
+    (hl : rs.length = rs'.length) (htl : tl.length = tl'.length)
+    (ht : ∀ x ∈ tl ++ tl', x.length = 32)
+    (he : root (fun l r => H (l ++ r)) zero ((rs.map (fun r => H (mb r)) ++ tl).map some) =
+          root (fun l r => H (l ++ r)) zero ((rs'.map (fun r => H (mb r)) ++ tl').map some)) :
+    (rs.map (Receipt.view v2) = rs'.map (Receipt.view v2) ∧ tl = tl') ∨ ∃ x y, Collision H x y := by
+  have hlen32 : ∀ (l : List Receipt) (t : List Bytes), (∀ x ∈ t, x.length = 32) →
+      ∀ x ∈ l.map (fun r => H (mb r)) ++ t, x.length = 32 := by
+    intro l t htt x hx
+    rcases List.mem_append.mp hx with h | h
+    · obtain ⟨r, _, rfl⟩ := List.mem_map.mp h; exact hH _
+    · exact htt x h
+  rcases merkle_exact_list_partial H hH zero _ _ (by simp [hl, htl])
+      (hlen32 rs tl (fun x hx => ht x (List.mem_append_left _ hx)))
+      (hlen32 rs' tl' (fun x hx => ht x (List.mem_append_right _ hx))) he with h1 | h1
+  · have h2 := List.append_inj h1 (by simp [hl])
+    have h3 : (rs.map mb).map H = (rs'.map mb).map H := by
+      rw [List.map_map, List.map_map]; exact h2.1
+    rcases map_hash_inj H _ _ h3 with h4 | ⟨x, y, hxy, hh⟩
+    · left
+      refine ⟨?_, h2.2⟩
+      clear he h1 h2 h3
+      induction rs generalizing rs' with
+      | nil => cases rs' with
+        | nil => rfl
+        | cons _ _ => simp at hl
+      | cons r rs ih => cases rs' with
+        | nil => simp at hl
+        | cons r' rs' =>
+          simp only [List.map_cons, List.cons.injEq] at h4 ⊢
+          refine ⟨?_, ih rs' (fun x hx => hmb x ?_) (fun x hx => hwf x ?_) (by simpa using hl) h4.2⟩
+          · have e1 := hmb r (by simp)
+            have e2 := hmb r' (by simp)
+            rw [← h4.1] at e2
+            exact receipt_digest_inj v2 r r' (mb r) (hwf r (by simp)) (hwf r' (by simp)) e1 e2
+          · rcases List.mem_append.mp hx with h | h <;> simp [h]
+          · rcases List.mem_append.mp hx with h | h <;> simp [h]
+    · exact .inr ⟨x, y, hxy, hh⟩
+  · exact .inr h1
+
+/-- **The transaction root commits to the ordered list of transaction identifiers' inputs** (equal
+length): equal `CalculateTxsRootHash` ⇒ the tx-hash inputs (`encode txHashSpec`, i.e. every body field
+incl. the signature, `tx_id_binds`) are pairwise equal, or an explicit SHA-256 collision is exhibited.
+(Assumes each `tx.Hash` is the hash of its body — `Tx.Validate` checks that on the execution path.) -/
+theorem txs_root_binds (H : Bytes → Bytes) (hH : ∀ x, (H x).length = 32) (zero : Bytes) (txs txs' : List Rec)
+    (hl : txs.length = txs'.length)
+    (he : root (fun l r => H (l ++ r)) zero ((txs.map (fun t => H (encode txHashSpec t))).map some) =
+          root (fun l r => H (l ++ r)) zero ((txs'.map (fun t => H (encode txHashSpec t))).map some)) :
+    txs.map (encode txHashSpec) = txs'.map (encode txHashSpec) ∨ ∃ x y, Collision H x y := by
+  rcases merkle_exact_list_partial H hH zero _ _ (by simp [hl])
+      (fun x hx => by obtain ⟨t, _, rfl⟩ := List.mem_map.mp hx; exact hH _)
+      (fun x hx => by obtain ⟨t, _, rfl⟩ := List.mem_map.mp hx; exact hH _) he with h1 | h1
+  · have h3 : (txs.map (encode txHashSpec)).map H = (txs'.map (encode txHashSpec)).map H := by
+      rw [List.map_map, List.map_map]; exact h1
+    rcases map_hash_inj H _ _ h3 with h4 | ⟨x, y, hxy, hh⟩
+    · exact .inl h4
+    · exact .inr ⟨x, y, hxy, hh⟩
+  · exact .inr h1
+
+end receipts
 
 end Aergo.Props.C19
